@@ -228,7 +228,7 @@ def simplify(op: str, *args) -> T:
     if op == "phi" and args[1] is args[2]:
         return args[1]
     if op == "call":
-        return _canon_where(mk(op, *args))
+        return call(args[0], *args[1:])
     return mk(op, *args)
 
 
@@ -265,8 +265,26 @@ def _canon_where(t: T) -> T:
     return cur
 
 
+def _canon_average(t: T) -> T:
+    """average(x, weights=w)  (no axis)  ==  sum(x * w) / sum(w): the form every estimator rule is written for"""
+    f = t.args[0]
+    if not (f.op == "name" and f.args[0].split(".")[-1] == "average" and f.args[0].split(".")[0] in ("jax", "numpy")):
+        return t
+    pos = [a for a in t.args[1:] if isinstance(a, T) and a.op != "kw"]
+    kws = {a.args[0]: a.args[1] for a in t.args[1:] if isinstance(a, T) and a.op == "kw"}
+    if len(pos) == 2 and not kws:
+        return t                       # average(x, axis)
+    if len(pos) != 1 or set(kws) != {"weights"}:
+        return t
+    sm = name(f.args[0].rsplit(".", 1)[0] + ".sum")
+    x, w = pos[0], kws["weights"]
+    return mk("binop", "/", mk("call", sm, mk("binop", "*", x, w)), mk("call", sm, w))
+
+
 def call(f: T, *args: T) -> T:
-    return _canon_where(mk("call", f, *args))
+    t = mk("call", f, *args)
+    t = _canon_where(t)
+    return _canon_average(t) if t.op == "call" else t
 
 
 def kw(k: str, v: T) -> T:
@@ -665,6 +683,11 @@ class Evaluator:
 
     def st_If(self, fr, st):
         cond = self.eval(fr, st.test)
+        tv = self._truth(cond)
+        if tv is not None:
+            # a flag that is a literal here (e.g. a helper evaluated in place with relax=True): only that branch exists
+            self.exec_block(fr, st.body if tv else st.orelse)
+            return
         base = fr.env
         path0 = fr.path
         e1 = base.copy()
@@ -1196,8 +1219,41 @@ class Evaluator:
             return parts[0]
         return mk("boolop", "and", *parts)
 
+    @staticmethod
+    def _truth(c) -> Optional[bool]:
+        """truth value of a condition that is a literal in this evaluation (a flag bound to True / False at the call
+        that is being evaluated in place, `not` of one, a comparison of two literals); None if not a literal"""
+        if not isinstance(c, T):
+            return None
+        if c.op == "const" and (isinstance(c.args[0], (bool, int, float, str)) or c.args[0] is None):
+            return bool(c.args[0])
+        if c.op == "unop" and c.args[0] == "not":
+            v = Evaluator._truth(c.args[1])
+            return None if v is None else not v
+        if c.op == "cmp" and len(c.args) == 3 and all(isinstance(a, T) and a.op == "const" for a in c.args[1:]):
+            a, b = c.args[1].args[0], c.args[2].args[0]
+            try:
+                return {"==": a == b, "!=": a != b, "is": a is b, "is not": a is not b, "<": a < b, ">": a > b,
+                        "<=": a <= b, ">=": a >= b}.get(c.args[0])
+            except TypeError:
+                return None
+        if c.op == "boolop":
+            vals = [Evaluator._truth(a) for a in c.args[1:]]
+            if c.args[0] == "and":
+                if any(v is False for v in vals):
+                    return False
+                return True if all(v is True for v in vals) else None
+            if any(v is True for v in vals):
+                return True
+            return False if all(v is False for v in vals) else None
+        return None
+
     def ex_IfExp(self, fr, n):
-        return mk("ifexp", self.eval(fr, n.test), self.eval(fr, n.body), self.eval(fr, n.orelse))
+        c = self.eval(fr, n.test)
+        tv = self._truth(c)
+        if tv is not None:
+            return self.eval(fr, n.body if tv else n.orelse)
+        return mk("ifexp", c, self.eval(fr, n.body), self.eval(fr, n.orelse))
 
     def ex_Lambda(self, fr, n):
         return self.make_closure(fr, n, "<lambda>")
@@ -1324,6 +1380,12 @@ class Evaluator:
                 return mk("tuple" if f.args[0].endswith("tuple") else "list", *a0.args)
         t = call(f, *args, *kws)
         self.note_line(t, line)
+        if t.op != "call":
+            # rewritten to a canonical non-call form (average -> sum / sum): the calls it consists of are the events
+            for x in t.args:
+                if isinstance(x, T) and x.op == "call":
+                    self.emit(fr, "call", line, x)
+            return t
         self._snapshot_closures(t, f, args)
         self.emit(fr, "call", line, t)
         if self.open_transforms and self._depth < self.MAX_INLINE_DEPTH:
